@@ -787,7 +787,7 @@ class C20:
             "out form)")
     required = ("three_routes_compared", "config_route_executed", "swallowed_path_cases", "fields_checked",
                 "out_file_cases", "out_dir_cases", "config_inline_single_value", "config_location_cwd",
-                "config_location_home", "config_after_earlier_config_create")
+                "config_location_home", "config_after_earlier_config_create", "cli_path_not_normalised")
     assumptions = ("INI-unsafe values (%, leading/trailing blanks, newlines, the words true/false) are not generated",
                    "documented configuration keys are the singular long option names of the manual's example")
 
@@ -828,7 +828,8 @@ class C20:
                 "ininames": {"announce": rng.choice(["announce", "announce", "tracker"])},
                 "ini_private_false": rng.random() < 0.3, "ini_inline": rng.random() < 0.5,
                 "ini_first_inline": rng.random() < 0.25, "ini_location": rng.choice(["path", "path", "cwd", "home"]),
-                "config_prelude": rng.random() < 0.3, "cmdword": rng.choice(["create", "new"]),
+                "config_prelude": rng.random() < 0.3,
+                "spell": rng.choice([None, None, "trailing-slash", "double-sep", "dot-segment", "dotdot"]), "cmdword": rng.choice(["create", "new"]),
                 "lib_path_kw": rng.choice(["path", "content"]), "lib_pl_str": rng.random() < 0.5}
 
     @staticmethod
@@ -867,7 +868,20 @@ class C20:
             os.chdir(sub)
             outarg, expect = outspec(sub)
             if route == "cli":
-                argv, orderclass = _c20_argv(case, root, outarg)
+                sp = case.get("spell")
+                parent_, base_ = os.path.split(root)
+                cli_path = root
+                if sp == "trailing-slash" and os.path.isdir(root):
+                    cli_path = root + "/"
+                elif sp == "double-sep":
+                    cli_path = parent_ + "//" + base_
+                elif sp == "dot-segment":
+                    cli_path = os.path.join(parent_, ".", base_)
+                elif sp == "dotdot":
+                    cli_path = os.path.join(root, "..", base_) if os.path.isdir(root) else root
+                if sp and cli_path != root:
+                    counters["cli_path_not_normalised"] = 1
+                argv, orderclass = _c20_argv(case, cli_path, outarg)
                 oc = drive.cli_execute(argv)
             elif route == "config":
                 if case.get("config_prelude"):
